@@ -644,7 +644,8 @@ class Scalar(Qube):
                 try:
                     log_values = np.log(no_negs._values_)
                 except RuntimeWarning:
-                    raise ValueError('Scalar.log() of non-positive value')
+                    log_values = self._func_of_unmasked(np.log, 1.,
+                                        'Scalar.log() of non-positive value')
 
         obj = Scalar(log_values, mask=no_negs._mask_)
 
